@@ -4,7 +4,7 @@ import json
 
 def run(ctx):
     decs = ctx.pick('{"nil", "A", "B"}', '{"nil", "A", "A2", "B"}')
-    for n in ctx.pick((1, 2, 3, 4, 5), (1, 2, 3, 4, 5, 6)):
+    for n in ctx.pick((2, 4, 5), (1, 2, 3, 4, 5, 6)):
         r = ctx.model_check("consensus", "MC_VoteSet", "MC_VoteSet.cfg",
                             constants={"N": n, "Decs": decs if n <= 5 else '{"nil", "A", "B"}'},
                             coverage=(n == 4), timeout=ctx.pick(300, 1800))
@@ -18,7 +18,7 @@ def run(ctx):
         for n, d in ctx.pick(((2, 4), (3, 3), (4, 3)), ((1, 6), (2, 5), (3, 4), (4, 3), (5, 3))):
             allb += ctx.behaviours("consensus", "Gen_VoteSet", "Gen_VoteSet.cfg",
                                    constants={"N": n, "MaxOps": d, "Depth": d}, timeout=600)
-        for n in ctx.pick((1, 2, 4, 5, 7, 8), (1, 2, 3, 4, 5, 6, 7, 8, 10, 11)):
+        for n in ctx.pick((1, 5, 7, 8), (1, 2, 3, 4, 5, 6, 7, 8, 10, 11)):
             wl = ctx.pick(30, 60)
             allb += ctx.behaviours("consensus", "Gen_VoteSet", "Gen_VoteSet.cfg",
                                    constants={"N": n, "MaxOps": wl, "Depth": wl, "Decs": '{"nil", "A", "A2", "B"}'},
